@@ -31,7 +31,7 @@ def required(tier):
 
 def gen_cases(seed, tier):
     rng = np.random.default_rng([seed, 7])
-    n = 260 if tier == 'quick' else 6000
+    n = 260 if tier == 'quick' else 36000
     cases = []
     for i in range(n):
         kind = ['tone', 'chirp', 'tone', 'reducers'][i % 4]
